@@ -29,6 +29,7 @@ type vfKV struct {
 	lastOut interface{}
 	lastErr error
 	calls   int
+	before  func() // runs when a CAS reaches the store, before its callback (another writer getting in first)
 }
 
 func (k *vfKV) List(ctx context.Context, prefix string) ([]string, error) { return nil, nil }
@@ -36,6 +37,11 @@ func (k *vfKV) Get(ctx context.Context, key string) (interface{}, error)  { retu
 func (k *vfKV) Delete(ctx context.Context, key string) error              { k.val = nil; return nil }
 func (k *vfKV) CAS(ctx context.Context, key string, f func(in interface{}) (out interface{}, retry bool, err error)) error {
 	k.calls++
+	if k.before != nil {
+		b := k.before
+		k.before = nil
+		b()
+	}
 	out, _, err := f(k.val)
 	k.lastOut, k.lastErr = out, err
 	if err != nil {
